@@ -219,8 +219,9 @@ end Boxed
 mutual
 /-- `build_expression_instance_evaluator(scope, expression_instance)` as a computation. -/
 def evalBoxed (env : Env) : Ast → EvalM Value
-  -- `build_context_evaluator` (`mod.rs:285-315`)
-  | .commaList [.context entries] => evalBoxedEntries env entries []
+  -- `build_context_evaluator` (`mod.rs:293-324`): the entries are evaluated in a context of their own,
+  -- pushed before the first entry and popped after the last one or after the result entry
+  | .commaList [.context entries] => Eval.bracket [] (evalBoxedEntries env entries [])
   -- `build_invocation_evaluator` (`mod.rs:352-376`), `build_function_definition_evaluator`
   -- (`mod.rs:330-349`): the bindings first, then the function
   | .commaList [.functionInvocation f (.namedParameters bindings)] => do
@@ -245,8 +246,8 @@ def evalBoxed (env : Env) : Ast → EvalM Value
 termination_by structural a => a
 
 /-- The loop of the boxed context closure: a named entry is written into the top context of
-the scope (`scope.set_entry`, *not* into a context of its own) and into the result; an entry
-without a variable ends the evaluation with its value. -/
+the scope (`scope.set_entry`: the context the closure pushed for its entries) and into the
+result; an entry without a variable ends the evaluation with its value. -/
 def evalBoxedEntries (env : Env) : List Ast → Ctx → EvalM Value
   | [], acc => pure (.ctx acc)
   | e :: es, acc =>
